@@ -20,11 +20,33 @@ def oracle(ck, case, out):
       break
 
 
+def must_include_heavy(ck, tier):
+  """More geos that cannot be excluded than n_geos_max admits (every one of them must still be placed)."""
+  import random
+  from . import search
+  out = []
+  for j in range(8 if tier == 'quick' else 100):
+    rng = random.Random(ck.seed * 23 + j)
+    c = search.gen_case(ck.seed * 23 + 700 + j, tier, max_geos=6)
+    n = len(c['rows'])
+    if n < 4:
+      continue
+    kinds = ['c', 't', 'ct'] + [rng.choice(['c', 't', 'ct', 'ct', 'ctx', 'cx', 'tx']) for _ in range(n - 3)]
+    rng.shuffle(kinds)
+    c['elig'] = {str(g + 1): kinds[g] for g in range(n)}
+    c['par'] = {'n_test': 3, 'iroas': 1.0, 'n_designs': 5, 'n_pretest_max': 90, 'n_geos_max': rng.choice([2, 2, 3])}
+    c['want_share'] = c['want_budget'] = False
+    c.pop('zero_sum_geo', None)
+    out.append(c)
+  return out
+
+
 COMPONENTS = ['geo_index', 'within_constraints', 'classes', 'treat_groups', 'control_groups', 'exhaustive', 'greedy']
 
 
 def run(tier):
-  return searchfam.run_family('C01', tier, 'props/C01.v', COMPONENTS, oracle, 150, 3000, RULE,
+  return searchfam.run_family('C01', tier, 'props/C01.v', COMPONENTS, oracle, 150, 3000,
+                              RULE + '; plus cases with more geos that cannot be excluded than n_geos_max', extra_cases=must_include_heavy,
                               assumptions=['eligibility rows of accepted tables are never all-zero (C16)'], gen_targets=searchfam.GEN_TARGETS_ALL)
 
 
